@@ -20,6 +20,7 @@ Optional case fields (all replayable): "verboses" (one import per line order and
 lines by create_db, the others by update); "prior" (specs of G.failing_prior, run before every judged import); "nested"
 (spec of G.nested_spec).
 """
+import gzip
 import os
 import random
 import tempfile
@@ -196,10 +197,13 @@ def model_of(nodes):
 
 
 def runs_of(case):
-    """(order index, line order, verbose value) of every judged import of a case."""
+    """(order index, line order, verbose value, {"pragmas": pragma spec or None, "eol": key of G.EOLS}) of every judged
+    import of a case."""
     orders = orders_of(case)
     vs = case.get("verboses") or [case.get("verbose", "absent")]
-    return [(oi, order, v) for oi, order in enumerate(orders) for v in vs]
+    ps = case.get("pragmas") or [None]
+    es = case.get("eols") or [case.get("eol", "lf")]
+    return [(oi, order, v, {"pragmas": p, "eol": e}) for oi, order in enumerate(orders) for v in vs for p in ps for e in es]
 
 
 def execute(ctx, case):
@@ -207,23 +211,27 @@ def execute(ctx, case):
     idless = any(n.get("noid") for n in g["nodes"])
     model = None if idless else model_of(g["nodes"])
     first = None
-    for oi, order, verbose in runs_of(case):
+    for oi, order, verbose, var in runs_of(case):
         # lines without an ID attribute: the stored ids, hence the model, depend on the line order
         nodes = H.resolve_ids(g["nodes"], order)
         rel, lower, upper = model or model_of(nodes)
-        table = one_import(ctx, case, oi, order, nodes, rel, lower, upper, verbose)
+        table = one_import(ctx, case, oi, order, nodes, rel, lower, upper, verbose, var)
         order = shown(case, oi, order, "")[0]
         for v in contracts.drain():
             ctx.violation(case, dict(v, why=tag(case) + "contract: " + str(v.get("why"))))
         if table is None:
             return
         if first is None:
-            first = (order, table, verbose)
+            first = (order, table, verbose, var)
         elif table != first[1]:
-            what = "the verbose argument" if order == first[0] else "the order of the lines"
+            what = " and ".join(w for w, differs in (("the order of the lines", order != first[0]),
+                                                     ("the verbose argument", verbose != first[2]),
+                                                     ("the pragmas argument", var["pragmas"] != first[3]["pragmas"]),
+                                                     ("the line terminator", var["eol"] != first[3]["eol"])) if differs)
             ctx.violation(case, {"why": tag(case) + "the relation set depends on " + what,
                                  "order_a": first[0], "order_b": order, "verbose_a": first[2], "verbose_b": verbose,
-                                 "split": case.get("split"),
+                                 "pragmas_a": first[3]["pragmas"], "pragmas_b": var["pragmas"],
+                                 "eol_a": first[3]["eol"], "eol_b": var["eol"], "split": case.get("split"),
                                  "only_a": sorted(set(first[1]) - set(table))[:10], "only_b": sorted(set(table) - set(first[1]))[:10],
                                  "text_a": None if case["kind"] == "wide" else G.text_of(g, first[0]),
                                  "text_b": None if case["kind"] == "wide" else G.text_of(g, order)})
@@ -233,6 +241,12 @@ def execute(ctx, case):
                 ctx.mon("line-order pairs with identical relation sets")
             if verbose != first[2]:
                 ctx.mon("verbose: pairs of imports (other verbose value) with identical relation sets")
+            if var["pragmas"] != first[3]["pragmas"]:
+                ctx.mon("pragmas: pairs of imports (other pragmas setting) with identical relation sets")
+            if var["eol"] != first[3]["eol"]:
+                ctx.mon("line ends: pairs of imports (other line terminator) with identical relation sets")
+                if "cr" in (var["eol"], first[3]["eol"]):
+                    ctx.mon("line ends: pairs of imports (bare CR against LF or CRLF) with identical relation sets")
 
 
 class _Noting(object):
@@ -354,16 +368,29 @@ def judge_nested(ctx, case, ndb, g2, info):
     return True
 
 
-def one_import(ctx, case, oi, order, nodes, rel, lower, upper, verbose="absent"):
-    """Import one line order (nodes: the graph's nodes with the ids of this order) after the earlier imports of
-    case["prior"], with the given verbose value, the last len(order) - case["split"] lines through FeatureDB.update, and
-    possibly a second import running inside (case["nested"]); returns the relation rows read from
-    the table (sorted; the ids of id-less lines replaced by the text of their line), or None after a violation."""
-    import gffutils
+def write_input(ctx, text, gz):
+    """The text as a file (bytes as given: no newline translation), gzip-compressed under a '.gz' name when gz."""
+    path = ctx.tmp(".gff3.gz" if gz else ".gff3")
+    with (gzip.open(path, "wb") if gz else open(path, "wb")) as fh:
+        fh.write(text.encode("utf-8"))
+    return path
 
+
+def one_import(ctx, case, oi, order, nodes, rel, lower, upper, verbose="absent", var=None):
+    """Import one line order (nodes: the graph's nodes with the ids of this order) after the earlier imports of
+    case["prior"], with the given verbose value, pragmas setting and line terminator (var), the last
+    len(order) - case["split"] lines through FeatureDB.update, and possibly a second import running inside
+    (case["nested"]); returns the relation rows read from the table (sorted; the ids of id-less lines replaced by the
+    text of their line), or None after a violation."""
+    import gffutils
+    from gffutils import constants
+
+    var = var or {"pragmas": None, "eol": case.get("eol", "lf")}
+    pspec, eol = var["pragmas"], var["eol"]
     g = graph_of(case)
     byid = {n["id"]: n for n in nodes}
-    text = G.text_of(g, order)
+    mk = lambda idx: G.text_of(g, idx, eol, case.get("last", True), bool(case.get("header")))
+    text = mk(order)
     # id-less lines: stored id -> text of the line; `twin`: those whose text occurs more than once in the file
     anon = {n["id"]: G.line_of(n, g.get("edge", "raw")) for n in nodes if n.get("noid")}
     ntext = Counter(anon.values())
@@ -380,23 +407,26 @@ def one_import(ctx, case, oi, order, nodes, rel, lower, upper, verbose="absent")
         used_string = used_string or spec["input"] == "string" or spec["via"] == "update"
         failed_before += run_prior(ctx, spec)
     dbfn = ":memory:" if case.get("db", "memory") == "memory" else ctx.tmp(".db")
-    text_a = text if split is None else G.text_of(g, order[:split])
-    text_b = None if split is None else G.text_of(g, order[split:])
-    if case.get("input", "path") == "path":
-        src = ctx.tmp(".gff3")
-        with open(src, "w", encoding="utf-8", newline="") as fh:
-            fh.write(text_a)
+    text_a = text if split is None else mk(order[:split])
+    text_b = None if split is None else mk(order[split:])
+    how = case.get("input", "path")
+    if how == "gzip" and eol == "cr":
+        raise AssertionError("harness: bare CR line ends inside a gzip file are not generated (see ASSUMPTIONS)")
+    if how in ("path", "gzip"):
+        src = write_input(ctx, text_a, how == "gzip")
         data, from_string = src, False
         if text_b is not None:
-            src2 = ctx.tmp(".gff3")
-            with open(src2, "w", encoding="utf-8", newline="") as fh:
-                fh.write(text_b)
+            src2 = write_input(ctx, text_b, how == "gzip")
         data2 = src2
     else:
         data, from_string = text_a, True
         data2 = text_b
         used_string = True
     kw = {} if verbose == "absent" else {"verbose": verbose}
+    pkw = {}
+    if pspec is not None and pspec != "absent":
+        pkw["pragmas"] = dict(constants.default_pragmas if pspec["default"] else {}, **pspec["set"])
+    kw.update(pkw)
     inner = {"calls": 0, "db": None, "error": None, "fired": False}
     if nested is not None:
         inner_text = G.text_of(nested["graph"], range(len(nested["graph"]["nodes"])))
@@ -425,6 +455,11 @@ def one_import(ctx, case, oi, order, nodes, rel, lower, upper, verbose="absent")
         info["history"] = "after %d import(s) built to fail half-way (case['prior'])" % len(case["prior"])
     if nested is not None:
         info["nested"] = "a transform ran a second create_db at feature number %d (case['nested'])" % nested["at"]
+    if pspec is not None:
+        info["pragmas"] = "argument not given" if pspec == "absent" else pkw["pragmas"]
+    if case.get("eols") or eol != "lf":
+        info["line_terminator"] = {"lf": "LF", "crlf": "CR LF", "cr": "bare CR"}[eol] + \
+            (", given as a gzip file" if how == "gzip" else ", given via from_string" if how == "string" else ", given as a path")
     if len(info) > 2:
         ctx = _Noting(ctx, {k: v for k, v in info.items() if k not in ("order", "text")})
     sqltrace.reset()
@@ -437,7 +472,8 @@ def one_import(ctx, case, oi, order, nodes, rel, lower, upper, verbose="absent")
             return None
         if split is not None:
             try:
-                db.update(data2, from_string=from_string, make_backup=False, **kw)
+                # the same verbose value / transform; the pragmas argument belongs to create_db and FeatureDB
+                db.update(data2, from_string=from_string, make_backup=False, **{k: v for k, v in kw.items() if k != "pragmas"})
             except Exception as ex:
                 ctx.violation(case, dict(info, why=T + "FeatureDB.update raised %s" % type(ex).__name__, error=repr(ex)))
                 return None
@@ -467,6 +503,41 @@ def one_import(ctx, case, oi, order, nodes, rel, lower, upper, verbose="absent")
             if not judge_nested(ctx, case, inner["db"], nested["graph"], info):
                 return None
         ctx.mon("imports")
+        dangling_values = {p for n in nodes for p in n["parents"] if p not in byid}
+        if pspec is not None:
+            fk = G.fk_on(pspec)
+            if case.get("reopen") and dbfn != ":memory:":
+                # the other documented place of the argument: a FeatureDB opened on the finished file
+                db.conn.close()
+                try:
+                    db = gffutils.FeatureDB(dbfn, **pkw)
+                except Exception as ex:
+                    ctx.violation(case, dict(info, why=T + "FeatureDB(dbfn, pragmas=...) raised %s on the database just made"
+                                             % type(ex).__name__, error=repr(ex)))
+                    return None
+                ctx.mon("pragmas: FeatureDB objects opened anew with the pragmas argument and judged")
+            if pspec != "absent":
+                ctx.mon("pragmas: imports with the pragmas argument given")
+            if fk:
+                ctx.mon("pragmas: imports with foreign_keys switched on")
+                ctx.mon("pragmas: judged connections that report foreign_keys = 1",
+                        int(db.conn.execute("PRAGMA foreign_keys").fetchone()[0] == 1))
+                if dangling_values:
+                    ctx.mon("pragmas: imports with foreign_keys on of a file with >= 1 dangling Parent value")
+                    ctx.mon("pragmas: dangling Parent values imported with foreign_keys on (no error, no phantom)", len(dangling_values))
+                if children_first(nodes, full_order):
+                    ctx.mon("pragmas: imports with foreign_keys on of a file with a child before its parent")
+                if split is not None:
+                    ctx.mon("pragmas: FeatureDB.update calls after a create_db with foreign_keys on")
+        if case.get("klass") == "eol":
+            name = {"lf": "LF", "crlf": "CRLF", "cr": "bare CR"}[eol]
+            ctx.mon("line ends: imports of a file with %s line ends" % name)
+            ctx.mon("line ends: %s, given %s" % (name, {"path": "as a path", "string": "via from_string", "gzip": "as a gzip file"}[how]))
+            ctx.mon("line ends: lines read from files with %s line ends" % name, len(full_order))
+            if case.get("header"):
+                ctx.mon("line ends: imports of a file with a '##gff-version 3' line in front")
+            if not case.get("last", True):
+                ctx.mon("line ends: imports of a file whose last line has no terminator")
         if anon:
             ctx.mon("id-less: imports with lines that have no ID attribute")
             ctx.mon("id-less: lines without ID attribute imported", len(anon))
@@ -497,6 +568,10 @@ def one_import(ctx, case, oi, order, nodes, rel, lower, upper, verbose="absent")
         ctx.mon("level-2 rows compared", sum(1 for r in rows if r[2] == 2))
         if verbose != "absent":
             ctx.mon("verbose=%r: level-2 rows compared" % (verbose,), sum(1 for r in rows if r[2] == 2))
+        if pspec is not None and G.fk_on(pspec):
+            ctx.mon("pragmas: level-2 rows compared (foreign_keys on)", sum(1 for r in rows if r[2] == 2))
+        if case.get("klass") == "eol" and eol != "lf":
+            ctx.mon("line ends: level-2 rows compared (%s)" % {"crlf": "CRLF", "cr": "bare CR"}[eol], sum(1 for r in rows if r[2] == 2))
         if len(rows) != len(table) or not (lower <= table <= upper):
             ctx.violation(case, {"why": T + "relations table differs from L1 u L2 of the Parent graph",
                                  "missing": sorted(lower - table)[:12], "unexpected": sorted(table - upper)[:12],
@@ -603,8 +678,8 @@ def one_import(ctx, case, oi, order, nodes, rel, lower, upper, verbose="absent")
                     d.conn.close()
                 except Exception:
                     pass
-        for p in (src, src2, nsrc, dbfn):
-            if p and p != ":memory:" and os.path.exists(p):
+        for p in (src, src2, nsrc, dbfn, dbfn + "-journal"):
+            if p and not p.startswith(":memory:") and os.path.exists(p):
                 os.unlink(p)
         if used_string:
             _sweep_tempdir(ctx)
@@ -849,6 +924,33 @@ def classify(ctx, case):
     if klass == "update":
         ctx.classes["update: " + case["how"]] += 1
         return lvl2
+    if klass == "pragmas":
+        ctx.classes["pragmas: one file under argument absent / defaults / defaults + foreign_keys=ON / drawn settings"] += 1
+        if dang:
+            ctx.classes["pragmas: file with a dangling Parent value"] += 1
+        if any(children_first(nodes, o) for o in orders_of(case)):
+            ctx.classes["pragmas: a line order with a child before its parent"] += 1
+        if dang and any(children_first(nodes, o) for o in orders_of(case)):
+            ctx.classes["pragmas: dangling Parent value and a child before its parent in one file"] += 1
+        if case.get("split") is not None:
+            ctx.classes["pragmas: judged import = create_db + FeatureDB.update"] += 1
+        if case.get("reopen") and case.get("db") == "file":
+            ctx.classes["pragmas: judged through FeatureDB(dbfn, pragmas=...)"] += 1
+        for spec in case["pragmas"]:
+            if spec != "absent":
+                for k in spec["set"]:
+                    ctx.classes["pragma: " + k.split(".")[-1]] += 1
+                if not spec["default"]:
+                    ctx.classes["pragmas: dictionary without the library's defaults"] += 1
+        return dang or lvl2
+    if klass == "eol":
+        ctx.classes["line ends: one file under LF, CRLF%s" % (" and bare CR" if "cr" in case["eols"] else " (gzip: no bare CR)")] += 1
+        ctx.classes["line ends: given " + {"path": "as a path", "string": "via from_string", "gzip": "as a gzip file (LF and CRLF only)"}[case["input"]]] += 1
+        if case.get("header"):
+            ctx.classes["line ends: '##gff-version 3' line in front"] += 1
+        if not case.get("last", True):
+            ctx.classes["line ends: last line without terminator"] += 1
+        return multi or lvl2 or dang
     if klass == "history":
         for spec in case.get("prior") or ():
             ctx.classes["history: after an import failed by: " + spec["fail"]] += 1
@@ -882,14 +984,25 @@ def account(ctx, case):
            "confusable": "line orders imported (look-alike ids)",
            "verbose": "imports (line order x verbose value)",
            "update": "imports (line order x verbose value; create_db + FeatureDB.update)",
-           "history": "imports judged after a failed import / around a nested import"}[klass]
+           "history": "imports judged after a failed import / around a nested import",
+           "pragmas": "imports (line order x pragmas setting)",
+           "eol": "imports (line order x line terminator)"}[klass]
     extra = G.spelling(g) if klass == "mixed" else None
+    if klass in ("pragmas", "eol"):
+        for oi, order, verbose, var in runs_of(case):
+            if children_first(g["nodes"], order):
+                ctx.classes["order=children first"] += 1
+            how = [case.get("input"), case.get("db"), case.get("split"), bool(case.get("reopen")), bool(case.get("header")), case.get("last", True)]
+            ctx.case((canon, order, klass, repr(var["pragmas"]), var["eol"], repr(how)), nontrivial, cls=cls,
+                     sample={"pragmas": var["pragmas"], "line_terminator": var["eol"], "input": case.get("input"), "order": order,
+                             "split": case.get("split"), "text": G.text_of(g, order, var["eol"], case.get("last", True), bool(case.get("header")))[:500]})
+        return
     if klass in ("verbose", "update", "history"):
         # the process history is part of what makes the case distinct
         hist = [[sp["fail"], sp["text"], sp["at"], sp["via"]] for sp in case.get("prior") or ()]
         if case.get("nested"):
             hist.append(["nested", G.text_of(case["nested"]["graph"], range(len(case["nested"]["graph"]["nodes"]))), case["nested"]["at"]])
-        for oi, order, verbose in runs_of(case):
+        for oi, order, verbose, _var in runs_of(case):
             ctx.case((canon, order, case["ids"], repr(verbose), case.get("split"), repr(hist)), nontrivial, cls=cls,
                      sample={"verbose": verbose, "split": case.get("split"), "order": order, "text": G.text_of(g, order)[:500],
                              "history": [h[:3] for h in hist]})
@@ -1053,6 +1166,39 @@ def run(ctx):
             order = list(range(n))
             rng.shuffle(order)
             case.update(orders=[order], split=rng.randrange(1, n))
+        execute(ctx, case)
+        account(ctx, case)
+    # 9. the documented pragmas argument: one file (3 of 4 with a dangling Parent value), parents first / children first / random,
+    #    under argument absent, the defaults given explicitly, defaults + foreign_keys='ON' and 1-2 drawn settings
+    for i in range(ctx.budget(64, 1300)):
+        g = G.graph(rng)
+        for _ in range(10):
+            ids = {n["id"] for n in g["nodes"]}
+            if i % 4 and not any(p not in ids for n in g["nodes"] for p in n["parents"]):
+                g = G.graph(rng)
+        n = len(g["nodes"])
+        case = {"kind": "graph", "klass": "pragmas", "ids": "word", "graph": g, "qseed": rng.randrange(10 ** 9),
+                "orders": G.sample_orders(rng, n, 3)[-2:] if i % 3 else G.sample_orders(rng, n, 2), "pragmas": G.pragma_specs(rng),
+                "nqueries": 2, "db": "file" if rng.random() < 0.3 else "memory", "reopen": rng.random() < 0.6,
+                "input": "string" if rng.random() < 0.15 else "path"}
+        if n >= 2 and rng.random() < 0.2:
+            order = list(range(n))
+            rng.shuffle(order)
+            case.update(orders=[order], split=rng.randrange(1, n))
+        execute(ctx, case)
+        account(ctx, case)
+    # 10. line terminators: one file written with LF, CRLF and bare CR line ends (in a drawn sequence), given as a path, via
+    #     from_string, or gzip-compressed (then LF and CRLF only)
+    for i in range(ctx.budget(64, 1300)):
+        g = G.graph(rng)
+        n = len(g["nodes"])
+        how = ("path", "string", "path", "gzip")[i % 4]
+        eols = ["lf", "crlf"] if how == "gzip" else ["lf", "crlf", "cr"]
+        rng.shuffle(eols)
+        case = {"kind": "graph", "klass": "eol", "ids": "word", "graph": g, "qseed": rng.randrange(10 ** 9),
+                "orders": G.sample_orders(rng, n, 3)[-2:] if i % 2 else G.sample_orders(rng, n, 2), "eols": eols,
+                "header": rng.random() < 0.35, "last": rng.random() < 0.75, "nqueries": 2,
+                "db": "file" if rng.random() < 0.15 else "memory", "input": how}
         execute(ctx, case)
         account(ctx, case)
     ctx.mon("make_query contract evaluations", contracts.EVALS["helpers.make_query"])
